@@ -8,7 +8,7 @@ def replay(spec):
     import warnings
     warnings.simplefilter("ignore")
     from bioscrape.types import Model
-    from bioscrape.simulator import ModelCSimInterface, SafeModelCSimInterface
+    from bioscrape.simulator import ModelCSimInterface, SafeModelCSimInterface, py_simulate_model
     POOL = ["X", "Y", "Z"]
     kind = spec.get("kind")
     problems = []
@@ -111,4 +111,13 @@ def replay(spec):
             problems.append("a model whose definition (%s) refers to a parameter without a value initialises" % which)
         except ValueError:
             pass
+        # the same model object, tried repeatedly (deferred initialisation leaves an object behind)
+        Md = Model(initialize_model=False, **kw)
+        for attempt, f_ in enumerate((lambda: ModelCSimInterface(Md), lambda: ModelCSimInterface(Md), lambda: Md.py_initialize(),
+                                      lambda: py_simulate_model(np.linspace(0, 1, 3), Model=Md)), 1):
+            try:
+                f_()
+                problems.append("attempt %d on a model with a valueless parameter (%s) goes through" % (attempt, which))
+            except ValueError:
+                pass
     return {"reproduced": bool(problems), "observed": problems[:3], "expected": "stoichiometry / derivative as defined by the reaction list"}
